@@ -41,6 +41,17 @@ CHECKS["C03"] = dict(
          "partial: that pmap executes the modelled map on each device is observed, not proved.",
     technique="Lean 4 theorems (layout independence by rewriting to map over states) + multi-device differential runs of the real solvers",
     ref="§8 C03", note="pmap execution on emulated host devices is runtime behaviour, observed only.")
+CHECKS["C01"] = dict(
+    text="Theorems (any linearly ordered field, any finite MDP table, any layout, any initial values): if the model's value-iteration loop reports "
+         "convergence under the span test the returned (greedy-for-the-new-iterate) policy satisfies 0 <= V* - V_pi < eps at every state; under "
+         "max_diff |V - V*| < eps and 0 <= V* - V_pi < 2 eps; for policy iteration stopping on n_changed = 0 the returned policy is greedy for the "
+         "returned values and, IF the last evaluation met its test (explicit hypothesis; the code does not check it - known finding), the gap is "
+         "< eps/gamma (span), < 2eps/gamma and |V - V_pi| < eps/gamma (max_diff). All derived from monotone+shift of the executable backup. "
+         "The semi-async 2*gamma*eps/(1-gamma) bound is checked on the implementation here; its theorem (Gauss-Seidel contraction) is part of C06. "
+         "Tie: real VI/PI/semi-async run to reported convergence; exact V*, V_pi certificates proposed in Python and verified by the Lean driver "
+         "with the model's operators; bounds checked as exact rational inequalities.",
+    technique="Lean 4 proof of the a-priori error bounds from the stopping rule (monotone+shift operator theory over the executable backup) + certificate-checked runs of the real solvers",
+    ref="§8 C01", note="Existence of V* (Banach) is not formalised: theorems quantify over every fixed point; per instance the driver verifies the fixed-point certificates exactly.")
 PENDING = {}
 
 
